@@ -31,7 +31,7 @@ PROPS = {
                 enum=["enum_registries.py --only C09", ("enum_frame.py", ["frame.inventory", "frame.scope_calls"]),
                       ("enum_block_table.py", ["F12.table#start", "F12.table#flags", "F12.table#labelled"])],
                 witnesses=["c09_internal_syntax_error_leaves_scope", "c09_main_program0_leaves_scope", "c09_failing_parse_removes_existing_table"]),
-    "C08": dict(level="other", enum=["enum_block_table.py"],
+    "C08": dict(level="other", enum=["enum_block_table.py", "bounded_trees.py --only C08"],
                 claim="BlockBase.match proved to return a block with an end class only if its END was found with agreeing names and labels "
                       "(when the caller asks for the check); call-site table of the 35 block rules enumerated against the constructs named in the "
                       "property (rules without a name check: known findings); Program.match accepts only exhausted input on its normal exit",
@@ -55,7 +55,7 @@ PROPS = {
                 trusted=TRUSTED,
                 explanation="[E] P2; [B] P3 at program level on a fixed corpus",
                 witnesses=["c17_open_without_unit", "c17_procedure_stmt_text_differs"]),
-    "C10": dict(level="other",
+    "C10": dict(level="other", enum=["bounded_trees.py --only C10"],
                 claim="node construction and navigation contracts: Base.__new__ statement branch stores the consumed item on the node, the parse cache "
                       "returns the identical object per (item, class), get_root returns an ancestor without parent, BlockBase.match accounts for every "
                       "consumed item in content order",
@@ -73,19 +73,19 @@ PROPS = {
                 trusted=TRUSTED,
                 explanation="[P] R7, R9a, U3b, U8b, R14 integers; delivery half of free/fixed statements not yet under contract",
                 witnesses=["c14_directive_backslash_at_eof"]),
-    "C14": dict(level="other",
+    "C14": dict(level="other", enum=["bounded_trees.py --only C14"],
                 claim="a '#' line is recognised exactly when its first non-blank character is '#' (not pyf); the reader's directive branch returns "
                       "one CppDirective item whose span is the physical lines taken, without exception at end of input",
                 trusted=TRUSTED,
                 explanation="[P] R13, R14; Cpp_* round trip and match_cpp_directive not yet under contract",
                 witnesses=["c14_directive_backslash_at_eof"]),
-    "C18": dict(level="other",
+    "C18": dict(level="other", enum=["bounded_trees.py --only C18"],
                 claim="deep-copy protocol: Base.__getnewargs__ returns (string, None, True) and every class with its own __new__ (Base, Comment, "
                       "Directive; Program delegates) returns a fresh uninitialised instance for those arguments without touching a reader",
                 trusted=TRUSTED + "; CPython copy/pickle protocol (reconstruction through __new__(*__getnewargs__()) then __dict__ copy)",
                 explanation="[P] U3a, U4, F4 deep-copy exits and the HAS_STRING invariant of Comment/Directive.init",
                 witnesses=["c18_deepcopy_with_comment"]),
-    "C20": dict(level="other",
+    "C20": dict(level="other", enum=["bounded_trees.py --only C20"],
                 claim="mechanisms that keep parsing effort polynomial: the per-item parse cache evaluates a string rule at most once per (item, class) "
                       "(ghost evaluation counter), the labelled-DO early abort restores the reader and returns at once",
                 trusted=TRUSTED,
@@ -110,4 +110,20 @@ PROPS = {
                 trusted=TRUSTED + "; bounded rendering space",
                 explanation="[P] R1, R2, R7; [B] detection + fixed branch",
                 witnesses=["c05_fixed_comment_with_ampersand", "c05_labelled_first_statement", "c05_first_statement_starting_with_c"]),
+    "C01": dict(level="other", enum=["bounded_trees.py --only C01"],
+                claim="round trip decided on a catalogue of programs (print, re-parse, same tree, same text; both standards, three comment modes); "
+                      "label / construct-name re-extraction proved; the generic match/tostr lemmas are not yet under contract",
+                trusted=TRUSTED + "; bounded catalogue",
+                explanation="[B] catalogue round trip; [P] R3, R4 (what StmtBase.tofortran prints is re-extracted)"),
+    "C07": dict(level="other", enum=["bounded_trees.py --only C07"],
+                claim="message construction proved (FortranSyntaxError names linecount and quotes source_lines[linecount-1]; line bookkeeping invariant kept "
+                      "by the line buffers); the location for every replaced statement of four catalogue programs checked on the real parser",
+                trusted=TRUSTED + "; bounded catalogue",
+                explanation="[P] U1, G2 (R7); [B] garbage at every statement"),
+    "C13": dict(level="other", enum=["bounded_trees.py --only C13"],
+                claim="put_item proved to reach the innermost include reader; include resolution compared with inlined text for every split of a small "
+                      "program into main text and include file (file and string readers, two include directories, first match wins); unresolved include kept",
+                trusted=TRUSTED + "; bounded catalogue; file system behaviour",
+                explanation="[P] R9a; [B] include scenarios in temporary directories",
+                witnesses=["c13_include_redetects_format"]),
 }
